@@ -46,8 +46,9 @@ from gen import gr_resolver_inputs as gr
 from specs import resolver_spec as rs
 
 ID = 'C06'
-LEVEL = 'exploration'
-P_TARGETS = []
+LEVEL = 'other'
+P_TARGETS = ['cgsmiles.resolve:MoleculeResolver.resolve', 'cgsmiles.resolve:MoleculeResolver.resolve_disconnected_molecule',
+             'cgsmiles.resolve:MoleculeResolver.edges_from_bonding_descrpt', 'cgsmiles.resolve:MoleculeResolver.squash_atoms']
 BUDGET = {'quick': 30.0, 'thorough': 400.0}
 CHUNK = 20
 BOUNDS = {
